@@ -4,8 +4,10 @@ from vlib import Failure, finish, hexs
 
 COQ_FILES = L.LOOP_COQ_FILES + L.REFINE_COQ_FILES + ["LoopDrainProofs.v"] + L.CANCEL_COQ_FILES + ["LoopCancelDrainProofs.v"]
 
-GARBAGE = [b"foo\n", b"\xff\xfe\n", b"ACK [5@0] {} nope\n", b"OK\nOK\n", b"x: y\n", b"binary: 99999\n", b"list_OK\nOK\n", b"ACK [x@0] {} z\n", b"OK\n"]
-INVALID = {b"foo\n", b"\xff\xfe\n", b"ACK [x@0] {} z\n"}
+GARBAGE = [b"foo\n", b"\xff\xfe\n", b"ACK [5@0] {} nope\n", b"OK\nOK\n", b"x: y\n", b"binary: 99999\n", b"list_OK\nOK\n", b"ACK [x@0] {} z\n", b"OK\n",
+           # one or two bytes that cannot begin anything the server may send: malformed at once, however little has arrived
+           b"\n", b"\xff\xfe", b"\xff", b":", b" ", b"\n\n", b"0"]
+INVALID = {b"foo\n", b"\xff\xfe\n", b"ACK [x@0] {} z\n", b"\n", b"\xff\xfe", b"\xff", b":", b" ", b"\n\n", b"0"}
 
 
 def corpus():
@@ -30,6 +32,13 @@ def corpus():
         mk(["D0", "G:" + hexs(b"ACK [5@0] {} nope\n"), "c1:" + e("a"), "t200", "e", "t200"], "ack", "server answers idle with an error", {1: ("c", [e("a")])}),
         mk(["D0", "c1:" + e("a"), "G:" + hexs(b"foo\n"), "c2:" + e("b"), "t200", "e", "t200"], "invalid", "malformed reply to noidle", {1: ("c", [e("a")]), 2: ("c", [e("b")])}),
         mk(["D0", "c1:" + e("a"), "S*", "D0", "S*", "G:" + hexs(b"foo\n"), "c2:" + e("b"), "c3:" + e("c"), "t50", "t200", "c4:" + e("d"), "t200", "t200"], "invalid", "malformed reply to the request: queued and later requests still resolve, no end of stream needed", {1: ("c", [e("a")]), 2: ("c", [e("b")]), 3: ("c", [e("c")]), 4: ("c", [e("d")])}),
+        mk(["D0", "c1:" + e("a"), "c2:" + e("b"), "S*", "D0", "S*", "G:" + hexs(b"\n"), "t200", "t200"], "invalid", "a stray line feed instead of the reply, then silence", {1: ("c", [e("a")]), 2: ("c", [e("b")])}),
+        mk(["D0", "c1:" + e("a"), "c2:" + e("b"), "S*", "D0", "S*", "G:" + hexs(b"\xff\xfe"), "t200", "t200"], "invalid", "two bytes that begin nothing instead of the reply, then silence", {1: ("c", [e("a")]), 2: ("c", [e("b")])}),
+        mk(["D0", "S*", "G:" + hexs(b"\n"), "t200", "t200"], "invalid", "a stray line feed while idle, then silence", {}),
+        # the application has dropped its ConnectionEvents; requests are answered; later the server goes away while nothing is pending
+        mk(["D0", "S*", "Z", "c1:" + e("a"), "S*", "D0", "S*", "D0", "t200", "S*", "D0", "t400", "e", "t200", "c2:" + e("b"), "t200"], "e", "events dropped, a request answered, then a clean close while quiescent", {1: ("c", [e("a")]), 2: ("c", [e("b")])}),
+        mk(["D0", "S*", "Z", "c1:" + e("a"), "S*", "D0", "S*", "D0", "t50", "e", "t200", "c2:" + e("b"), "t200"], "e", "events dropped, a request answered, clean close inside the window", {1: ("c", [e("a")]), 2: ("c", [e("b")])}),
+        mk(["D0", "S*", "Z", "c1:" + e("a"), "S*", "D0", "S*", "D0", "t200", "S*", "D0", "G:" + hexs(b"what\n"), "t200", "c2:" + e("b"), "t200"], "invalid", "events dropped, a request answered, then malformed data while quiescent", {1: ("c", [e("a")]), 2: ("c", [e("b")])}),
     ] + [
         # a long history of events the application has not read yet, then the failure while idle: the closing event is not one that
         # may be dropped for lack of room
@@ -58,7 +67,7 @@ def gen(ctx):
     items = corpus() + art_cases(rng)
     n = 200 if ctx.tier == "quick" else 4000
     for _ in range(n):
-        labels, info, rid = L.gen_session(rng, rng.choice([0, 2, 6, 15, 40]), cancel=True)
+        labels, info, rid = L.gen_session(rng, rng.choice([0, 2, 6, 15, 40]), cancel=True, pauses=rng.random() < 0.5)
         kind = rng.choice(["e", "cut", "r", "w", "h", "garbage", "garbage"])
         if kind == "e":
             labels += [rng.choice(["S*", "D0", "S"]), "e"]
@@ -165,7 +174,8 @@ def run(ctx, only=None):
                 v.append(f"the closing event is not the last event: {evs}")
             if "end" in evs and evs[-1] != "end":
                 v.append(f"events after the end of the event stream: {evs}")
-            if "end" not in evs and t.conn()[1] and t.conn()[1].startswith("ok"):
+            no_listener = "Z" in s.labels        # the application dropped its ConnectionEvents: nothing can be observed on it
+            if "end" not in evs and not no_listener and t.conn()[1] and t.conn()[1].startswith("ok"):
                 v.append("the event stream never ended although the connection ended")
             held = "h" not in r["ops"]
             if held and not t.flag("X") and t.conn()[1] and t.conn()[1].startswith("ok"):
@@ -207,7 +217,7 @@ def run(ctx, only=None):
                         and not res[inflight][1].startswith("ok[") and not res[inflight][1].startswith("ack("):
                     v.append(f"the failure struck while request {inflight} was in flight, but its caller received {res[inflight][1]!r} "
                              f"(a clean-close answer) instead of the protocol error; events {evs}")
-            if unclean and held and not info["cancelled"]:
+            if unclean and held and not info["cancelled"] and not no_listener:
                 surfaced = any(x[1].startswith("proto:") for x in res.values()) or bool(closed_evs)
                 if not surfaced:
                     v.append(f"fault '{info['fault']}' was neither reported to a caller (protocol error) nor as a closing event; results {sorted((k, x[1][:40]) for k, x in res.items())}, events {evs}")
